@@ -219,6 +219,13 @@ def api_centroids(d, e, m, pos, tr):
         xs, ys = centroid_sources(d, x, y, box_size=9, mask=m, centroid_func=f)
         cols.append(col(f.__name__ + '_x', 'x', xs, tol=3, partner=2 * k + 2))
         cols.append(col(f.__name__ + '_y', 'y', ys, tol=3, partner=2 * k + 1))
+    # ... and with the (spatially varying) error map for the functions that use one; find_peaks refines through the same path
+    from photutils.detection import find_peaks
+    base = len(cols)
+    for k, f in enumerate((centroid_1dg, centroid_2dg)):
+        xs, ys = centroid_sources(d, x, y, box_size=9, mask=m, error=e, centroid_func=f)
+        cols.append(col(f.__name__ + '_err_x', 'x', xs, tol=3, partner=base + 2 * k + 2))
+        cols.append(col(f.__name__ + '_err_y', 'y', ys, tol=3, partner=base + 2 * k + 1))
     # the functions themselves on a non-square single-source image (tall in the original, wide when transposed)
     yy, xx = np.mgrid[:31, :16]
     crop = 70.0 * np.exp(-0.5 * (((xx - 7.4) / 1.7) ** 2 + ((yy - 21.6) / 2.3) ** 2)) + np.random.default_rng(11).uniform(0, 0.3, (31, 16))
@@ -227,8 +234,8 @@ def api_centroids(d, e, m, pos, tr):
     for k, f in enumerate((centroid_com, centroid_quadratic, centroid_1dg, centroid_2dg)):
         xc, yc = f(crop)
         off = (tr[1], tr[2]) if tr[0] == 'translate' else (0, 0)
-        cols.append(col('crop_' + f.__name__ + '_x', 'x', [xc + off[0]], tol=3, partner=8 + 2 * k + 2))
-        cols.append(col('crop_' + f.__name__ + '_y', 'y', [yc + off[1]], tol=3, partner=8 + 2 * k + 1))
+        cols.append(col('crop_' + f.__name__ + '_x', 'x', [xc + off[0]], tol=3, partner=12 + 2 * k + 2))
+        cols.append(col('crop_' + f.__name__ + '_y', 'y', [yc + off[1]], tol=3, partner=12 + 2 * k + 1))
     return cols, {}
 
 
